@@ -126,7 +126,7 @@ template <class T, class M, class V, int N> static void svd_eig (Gen<T>& g, int 
 {
     const char* t = tg<T> ();
     M A;
-    int mode = it % 8;
+    int mode = it % 12;
     for (int i = 0; i < N; ++i) for (int j = 0; j < N; ++j) A[i][j] = g.pick (it % 3);
     if (mode == 1) for (int j = 0; j < N; ++j) A[N - 1][j] = A[0][j];                 // rank deficient
     if (mode == 2) for (int i = 0; i < N; ++i) for (int j = 0; j < N; ++j) A[i][j] = (i == j) ? (T) (N - i) : (T) 0;   // already diagonal
@@ -135,6 +135,10 @@ template <class T, class M, class V, int N> static void svd_eig (Gen<T>& g, int 
     if (mode == 5) A[0][0] = -A[0][0];
     if (mode == 6) for (int i = 0; i < N; ++i) for (int j = 0; j < N; ++j) A[i][j] = (i + j == N - 1) ? (T) 1 : (T) 0; // exchange matrix
     if (mode == 7) for (int i = 0; i < N; ++i) for (int j = 0; j < N; ++j) A[i][j] = (T) 0;
+    if (mode == 8) for (int i = 0; i < N; ++i) for (int j = i + 1; j < N; ++j) A[i][j] = (T) 0;                        // lower triangular
+    if (mode == 9) for (int i = 0; i < N; ++i) for (int j = 0; j < i; ++j) A[i][j] = (T) 0;                            // upper triangular
+    if (mode == 10) { for (int i = 0; i < N; ++i) for (int j = 0; j < N; ++j) A[i][j] = (i == j) ? (T) 1 : (T) 0; for (int j = 0; j < N - 1; ++j) A[N - 1][j] = (T) (j + 2); }   // a translation matrix
+    if (mode == 11) { for (int i = 0; i < N; ++i) for (int j = 0; j < N; ++j) A[i][j] = (i == j) ? (T) (1 + i) : (T) 0; A[1 + (it / 12) % (N - 1)][0] = (T) 0.75; }             // diagonal plus one sub-diagonal entry
     for (int fp = 0; fp < 2; ++fp)
     {
         M U, Vm; V S;
